@@ -208,6 +208,8 @@ enum Status {
     Runnable,
     BlockedJoin(usize),
     BlockedBarrier,
+    /// Waiting until every other model thread has finished.
+    BlockedAll,
     Finished,
 }
 
@@ -1109,6 +1111,13 @@ fn fiber_main(tid: usize, job: Job, y: &Yielder<(), ()>) {
                 st.threads[t].status = Status::Runnable;
             }
         }
+        for t in 0..st.nthreads {
+            if st.threads[t].status == Status::BlockedAll
+                && (0..st.nthreads).all(|u| u == t || st.threads[u].status == Status::Finished)
+            {
+                st.threads[t].status = Status::Runnable;
+            }
+        }
         if st.cfg.trace {
             st.trace.push(format!("t{} finished", tid));
         }
@@ -1211,6 +1220,35 @@ impl<T> JoinHandle<T> {
         let r = self.slot.lock().unwrap().take();
         r
     }
+}
+
+/// Block until every other model thread has finished, and synchronise with all of them (like
+/// joining each). Results are then fetched with `JoinHandle::join`, which no longer blocks.
+pub fn join_all() {
+    let me = current_tid().expect("join_all outside of the engine");
+    let must_wait = with(|st| {
+        if (0..st.nthreads).any(|u| u != me && st.threads[u].status != Status::Finished) {
+            st.threads[me].status = Status::BlockedAll;
+            true
+        } else {
+            false
+        }
+    });
+    if must_wait {
+        block_and_yield(me);
+    }
+    with(|st| {
+        for u in 0..st.nthreads {
+            if u != me {
+                let (vc, view) = (st.threads[u].vc, st.threads[u].view.clone());
+                st.threads[me].vc.join(&vc);
+                st.threads[me].view.join(&view);
+            }
+        }
+        if st.cfg.trace {
+            st.trace.push(format!("t{} joined all other threads", me));
+        }
+    });
 }
 
 /// Block until `n` model threads have arrived. Synchronises them (like a real barrier would).
